@@ -129,6 +129,19 @@ def run(ctx):
             if (st.st_uid, st.st_gid) != (12345, 54321): viol.append(dict(why='owner/group not copied as root', stderr=''))
             if st.st_mtime_ns != 987654321987654321 or st.st_atime_ns != 1234567890123456789: viol.append(dict(why='timestamps not copied exactly: %d %d' % (st.st_atime_ns, st.st_mtime_ns), stderr=''))
             distinct.add(('mode', m))
+        # the target may be born with another group than the source's (set-group-ID directory): the source's group must be
+        # restored on it together with the mode, also when the source's group is the group xz runs with
+        if os.geteuid() == 0:
+            sg = os.path.join(td, 'sgid'); os.mkdir(sg); os.chown(sg, 0, 54321); os.chmod(sg, 0o2770)
+            for j, (gid_, md_, extra) in enumerate([(os.getegid(), 0o640, []), (os.getegid(), 0o660, ['-k']), (4242, 0o640, []), (os.getegid(), 0o664, ['-k', '-S', '.foo'])]):
+                p = os.path.join(sg, 'g%d' % j); open(p, 'wb').write(b'secret data\n'); os.chown(p, 0, gid_); os.chmod(p, md_)
+                if os.stat(p).st_gid != gid_: continue
+                r = subprocess.run([xz] + extra + [p], capture_output=True, stdin=subprocess.DEVNULL); n_eval += 1
+                tg = p + ('.foo' if '-S' in extra else '.xz')
+                if not os.path.exists(tg): viol.append(dict(why='set-group-ID directory: no target (exit %d)' % r.returncode, stderr=r.stderr.decode()[:200])); continue
+                st = os.stat(tg); distinct.add(('sgid', j, st.st_gid == gid_))
+                if st.st_gid != gid_ or stat.S_IMODE(st.st_mode) != md_:
+                    viol.append(dict(why='source with group %d mode %o in a set-group-ID directory of group 54321: target has group %d mode %o (the directory\'s group gets access the source did not grant)' % (gid_, md_, st.st_gid, stat.S_IMODE(st.st_mode)), stderr=''))
         # unprivileged with a group the user is not in: restricted mode branch
         def drop():
             os.setgroups([]); os.setgid(65534); os.setuid(65534)
